@@ -712,11 +712,16 @@ class RewriteRuleSet:
                         continue
                     initializers = graph_or_function.initializers
                     for initializer in delta.new_initializers:
-                        if initializer.name in initializers:
+                        existing = initializers.get(initializer.name)  # type: ignore[arg-type]
+                        if existing is not None and existing is not initializer:
+                            # The name is taken by another initializer, which may still be in use:
+                            # keep it and register the new initializer under a name that is free.
                             if verbose:
                                 print(f"Initializer {initializer.name} already exists.")
-                            continue
-                    for initializer in delta.new_initializers:
+                            suffix = 1
+                            while f"{initializer.name}_{suffix}" in initializers:
+                                suffix += 1
+                            initializer.name = f"{initializer.name}_{suffix}"
                         initializers[initializer.name] = initializer  # type: ignore[index]
                 # TODO: This does not yet handle the problem of determining the correct insertion point
                 # for inserted nodes in the case of patterns with multiple output-nodes. The following
